@@ -659,7 +659,7 @@ func main() {
 		replay(c)
 		return
 	}
-	c.SetBudget(12*time.Minute, 45*time.Minute)
+	c.SetBudget(20*time.Minute, 45*time.Minute)
 	quick := c.Quick()
 	b := tierBounds(quick)
 
@@ -677,7 +677,7 @@ func main() {
 	if !quick {
 		mod = 24
 	}
-	budget := 12 * time.Minute
+	budget := 20 * time.Minute
 	if !quick {
 		budget = 45 * time.Minute
 	}
